@@ -29,11 +29,17 @@
 //!   derived <spec> <prog>/<prog>[/<prog>] <sched>        an ArcAsyncDerived = (last memo of graph <spec> over signal a) * 1000
 //!        + signal b (a = 1, b = 10); its task lives on party 0's executor; ops a<v> b<v> (set a / b) g<i> and,
 //!        party 0 only, p (poll the executor); party 0 polls once more when all are done; final value = from scratch
+//!   effect <spec> <prog>/<prog>[/<prog>] <sched>         the same with an `Effect::new` (its task on party 0's executor) that
+//!        computes and logs that value; oracle: the LAST logged value = from scratch
 //!   imm <spec> <prog>                                    single thread: an `ImmediateEffect` reading the last memo of
 //!        the graph <spec> (see `graph`), then the ops s<v> / g<i>; a hang is `fail hang`
 //!   sig <prog>/<prog>[/<prog>] <sched>                   plain signal (initially 1), no hooks: prog ops
 //!        r (get) s<v> (set) w<v> .. u (one `sig.update(|n| { *n = v; <the ops up to u> })`: the closure runs
 //!        with the value write-locked, as every update does)
+//!   stress subs <rounds>                                 two threads re-run memos on one signal (unsubscribe +
+//!        subscribe) next to an idle third subscriber; after every round all three must be notified (testing only)
+//!   stress writes <family> <threads> <iters>             concurrent increments through one write-handle family
+//!        (rw rwguard arcrw arcrwguard write writeguard arcwrite arcwriteguard), no reader; no increment lost
 //!   stress effect <seed> <writers> <iters>               free-running threads + watchdog (testing only)
 //! Both sides append the same tail to the schedule (3 rounds of 8 entries per party), so every
 //! run is a complete one; an entry for a finished / parked-and-not-woken / in-flight party is a no-op.
@@ -1470,7 +1476,7 @@ mod real {
     /// party 0's executor (polled by the op `p` and once more when everybody is done).  Other parties
     /// write the signals / read memos while the task is inside `needs_rerun`'s source check (pre-empted
     /// at the memo:* points of the memo it is checking).  Oracle: final value = from-scratch.
-    fn run_derived(defs: &[GDef], progs: &[Vec<DOp>], sched: &[usize]) -> String {
+    fn run_derived(as_effect: bool, defs: &[GDef], progs: &[Vec<DOp>], sched: &[usize]) -> String {
         let n = progs.len();
         let mut g: Vec<&'static str> = MEMO_GATES.to_vec();
         g.push("memo:cleared");
@@ -1526,14 +1532,31 @@ mod real {
                         apply_fn(f, &x)
                     }));
                 }
-                let derived = {
+                // the node under test: an async derived, or an `Effect` logging what it computes
+                let elog: Arc<Mutex<Vec<u64>>> = Arc::new(Mutex::new(vec![]));
+                let (derived, effect) = {
                     let last = memos.last().unwrap().clone();
                     let b = b.clone();
-                    ArcAsyncDerived::new(move || {
-                        let x = last.get();
-                        let y = b.get();
-                        async move { x * 1000 + y }
-                    })
+                    if as_effect {
+                        let elog = elog.clone();
+                        (
+                            None,
+                            Some(Effect::new(move |_| {
+                                let x = last.get();
+                                let y = b.get();
+                                elog.lock().unwrap().push(x * 1000 + y);
+                            })),
+                        )
+                    } else {
+                        (
+                            Some(ArcAsyncDerived::new(move || {
+                                let x = last.get();
+                                let y = b.get();
+                                async move { x * 1000 + y }
+                            })),
+                            None,
+                        )
+                    }
                 };
                 sched::run_until_idle(64);
                 close_gates();
@@ -1555,7 +1578,11 @@ mod real {
                 }
                 open_gates();
                 sched::run_until_idle(64);
-                let v = catch_unwind(AssertUnwindSafe(|| derived.get_untracked())).ok().flatten();
+                let v = match &derived {
+                    Some(d) => catch_unwind(AssertUnwindSafe(|| d.get_untracked())).ok().flatten(),
+                    None => elog.lock().unwrap().last().copied(),
+                };
+                drop(effect);
                 // then every memo once more, in index order
                 let ms: Vec<String> = memos
                     .iter()
@@ -1644,7 +1671,11 @@ mod real {
             // the memo itself lost a write (F-C19-3); the derived then faithfully shows the stale memo
             "fail memo-stale"
         } else if stale {
-            "fail derived-stale"
+            if as_effect {
+                "fail effect-stale"
+            } else {
+                "fail derived-stale"
+            }
         } else {
             "ok"
         };
@@ -1901,6 +1932,159 @@ mod real {
 
     // ------------------------------------------------------------ stress (testing only)
 
+    /// Bounded real-thread stress (testing, no lock-step): subscribe / unsubscribe on ONE signal's subscriber
+    /// set from two threads with an idle third subscriber.  Per round the main thread re-runs m1, m2, v in
+    /// this order (subscriber list [m1, m2, v]); two workers then re-run m1 and m2 at the same time (each
+    /// drops its sources = `remove_subscriber` on the shared signal, and subscribes again); then the shared
+    /// signal is written: every one of the three must be notified.  At HEAD find-and-remove is one critical
+    /// section, so a failure here can only come from a changed implementation (no false alarm).
+    fn run_stress_subs(rounds: usize) -> String {
+        let (txr, rxr) = std::sync::mpsc::channel::<String>();
+        std::thread::spawn(move || {
+            use std::sync::Barrier;
+            let memo_sum = |p: &ArcRwSignal<u64>, s: &ArcRwSignal<u64>| {
+                let (p, s) = (p.clone(), s.clone());
+                ArcMemo::new(move |_| p.get() * 1_000_000 + s.get())
+            };
+            let s = ArcRwSignal::new(0u64);
+            let ps: Vec<ArcRwSignal<u64>> = (0..3).map(|_| ArcRwSignal::new(0u64)).collect();
+            let ms: Vec<ArcMemo<u64>> = ps.iter().map(|p| memo_sum(p, &s)).collect();
+            let barrier = Arc::new(Barrier::new(3));
+            let stop = Arc::new(AtomicBool::new(false));
+            let mut hs = vec![];
+            for i in 0..2 {
+                let (p, m, barrier, stop) = (ps[i].clone(), ms[i].clone(), barrier.clone(), stop.clone());
+                hs.push(std::thread::spawn(move || {
+                    let mut round = 0u64;
+                    loop {
+                        barrier.wait();
+                        if stop.load(SeqCst) {
+                            break;
+                        }
+                        round += 1;
+                        p.set(round);
+                        let _ = m.get_untracked();
+                        barrier.wait();
+                    }
+                }));
+            }
+            let mut failure = None;
+            let t0 = Instant::now();
+            for round in 1..=rounds as u64 {
+                for i in 0..3 {
+                    ps[i].set(round - 1);
+                    let _ = ms[i].get_untracked();
+                }
+                barrier.wait();
+                barrier.wait();
+                s.set(round);
+                let got: Vec<u64> = ms.iter().map(|m| m.get_untracked()).collect();
+                let want = vec![round * 1_000_000 + round, round * 1_000_000 + round, (round - 1) * 1_000_000 + round];
+                if got != want {
+                    failure = Some(format!("lost round={round} got={got:?} want={want:?}"));
+                    break;
+                }
+                if t0.elapsed() > Duration::from_secs(20) {
+                    break;
+                }
+            }
+            stop.store(true, SeqCst);
+            barrier.wait();
+            for h in hs {
+                let _ = h.join();
+            }
+            let _ = txr.send(failure.unwrap_or("kept".into()));
+        });
+        match rxr.recv_timeout(Duration::from_secs(40)) {
+            Ok(s) if s == "kept" => "kept ## ok".into(),
+            Ok(s) => format!("{} ## fail subscriber-lost", s.replace(' ', "_")),
+            Err(_) => "hang ## fail hang".into(),
+        }
+    }
+
+    /// Bounded real-thread stress (testing): `threads` threads increment one signal `iters` times each through
+    /// one write-handle family, nobody reads; every write path blocks for the value lock, so no increment may
+    /// be lost: final value = threads * iters.
+    fn run_stress_writes(family: &str, threads: usize, iters: usize) -> String {
+        use reactive_graph::{
+            signal::{arc_signal, signal, RwSignal},
+            traits::{Update, Write},
+        };
+        let family = family.to_string();
+        let (txr, rxr) = std::sync::mpsc::channel::<String>();
+        std::thread::spawn(move || {
+            let owner = Owner::new();
+            owner.set();
+            let want = (threads * iters) as u64;
+            let run = |f: Arc<dyn Fn() + Send + Sync>| {
+                let hs: Vec<_> = (0..threads)
+                    .map(|_| {
+                        let f = f.clone();
+                        std::thread::spawn(move || {
+                            for _ in 0..iters {
+                                f()
+                            }
+                        })
+                    })
+                    .collect();
+                for h in hs {
+                    let _ = h.join();
+                }
+            };
+            let got: u64 = match family.as_str() {
+                "rw" => {
+                    let s = RwSignal::new(0u64);
+                    run(Arc::new(move || s.update(|n| *n += 1)));
+                    s.get_untracked()
+                }
+                "rwguard" => {
+                    let s = RwSignal::new(0u64);
+                    run(Arc::new(move || *s.write() += 1));
+                    s.get_untracked()
+                }
+                "arcrw" => {
+                    let s = ArcRwSignal::new(0u64);
+                    let s2 = s.clone();
+                    run(Arc::new(move || s2.update(|n| *n += 1)));
+                    s.get_untracked()
+                }
+                "arcrwguard" => {
+                    let s = ArcRwSignal::new(0u64);
+                    let s2 = s.clone();
+                    run(Arc::new(move || *s2.write() += 1));
+                    s.get_untracked()
+                }
+                "write" => {
+                    let (r, w) = signal(0u64);
+                    run(Arc::new(move || w.update(|n| *n += 1)));
+                    r.get_untracked()
+                }
+                "writeguard" => {
+                    let (r, w) = signal(0u64);
+                    run(Arc::new(move || *w.write() += 1));
+                    r.get_untracked()
+                }
+                "arcwrite" => {
+                    let (r, w) = arc_signal(0u64);
+                    run(Arc::new(move || w.update(|n| *n += 1)));
+                    r.get_untracked()
+                }
+                _ => {
+                    let (r, w) = arc_signal(0u64);
+                    run(Arc::new(move || *w.write() += 1));
+                    r.get_untracked()
+                }
+            };
+            let _ = txr.send(if got == want { "exact".into() } else { format!("lost got={got} want={want}") });
+            drop(owner);
+        });
+        match rxr.recv_timeout(Duration::from_secs(40)) {
+            Ok(s) if s == "exact" => "exact ## ok".into(),
+            Ok(s) => format!("{} ## fail write-lost", s.replace(' ', "_")),
+            Err(_) => "hang ## fail hang".into(),
+        }
+    }
+
     fn run_stress_effect(seed: u64, writers: usize, iters: usize) -> String {
         let (txr, rxr) = std::sync::mpsc::channel::<String>();
         std::thread::spawn(move || {
@@ -2070,7 +2254,7 @@ mod real {
                 }
                 run_graph(&defs, clean, gates, &progs, &s)
             }
-            ["derived", spec, progs, s] => {
+            [kind @ ("derived" | "effect"), spec, progs, s] => {
                 let Some(defs) = parse_graph(spec) else { return "bad-op".into() };
                 let progs: Option<Vec<Vec<DOp>>> =
                     progs.split('/').enumerate().map(|(i, p)| parse_dprog(p, defs.len(), i)).collect();
@@ -2081,7 +2265,7 @@ mod real {
                 if !cfg!(has_yield_hooks_v2) {
                     return "no-hooks-v2 (reactive_graph lacks hooks/yield_points_v2.patch)".into();
                 }
-                run_derived(&defs, &progs, &s)
+                run_derived(*kind == "effect", &defs, &progs, &s)
             }
             ["imm", spec, prog] => {
                 let Some(defs) = parse_graph(spec) else { return "bad-op".into() };
@@ -2098,6 +2282,24 @@ mod real {
                     return "bad-op".into();
                 }
                 run_sig(&progs, &s)
+            }
+            ["stress", "subs", rounds] => {
+                let Ok(rounds) = rounds.parse::<usize>() else { return "bad-op".into() };
+                if rounds == 0 || rounds > 2_000_000 {
+                    return "bad-op".into();
+                }
+                run_stress_subs(rounds)
+            }
+            ["stress", "writes", family, threads, iters] => {
+                let (Ok(th), Ok(it)) = (threads.parse::<usize>(), iters.parse::<usize>()) else { return "bad-op".into() };
+                if !["rw", "rwguard", "arcrw", "arcrwguard", "write", "writeguard", "arcwrite", "arcwriteguard"].contains(family)
+                    || th == 0
+                    || th > 4
+                    || it > 1_000_000
+                {
+                    return "bad-op".into();
+                }
+                run_stress_writes(family, th, it)
             }
             ["stress", "effect", seed, writers, iters] => {
                 let (Ok(seed), Ok(wr), Ok(it)) = (seed.parse::<u64>(), writers.parse::<usize>(), iters.parse::<usize>()) else {
@@ -2259,6 +2461,24 @@ fn gen(seed: u64, n: usize, path: &str, tier: &str) -> std::io::Result<()> {
             }
         }
     }
+    // the same for an Effect task (its own update loop under cross-thread marks)
+    if cfg!(has_yield_hooks_v2) {
+        for (spec, progs, counts) in [
+            ("d100s", "a2,p/b20", vec![12, 2]),
+            ("d100s", "a2,p,p/b20,b30", vec![14, 3]),
+            ("d100s", "a2,p,a300,p/b20,a5", vec![24, 3]),
+            ("x2s", "a2,p,p/b20,a3", vec![20, 3]),
+            ("a1s,d100m0", "a2,p,p/b20,g1", vec![24, 8]),
+            ("x0s,a1s,pm0m1", "a2,p,p/b20,a3,g2", vec![34, 20]),
+            ("d100s", "a2,p/b20/a3,b40", vec![12, 2, 3]),
+            ("d2s", "a2,p,a3,p/b20,b21,g0", vec![22, 9]),
+        ] {
+            for _ in 0..(if tier == "thorough" { 1500 } else { 100 }) {
+                let sc = random_sched(&mut r, &counts);
+                emit(&mut f, "effect", format!("effect {spec} {progs} {sc}"))?;
+            }
+        }
+    }
     // single thread, an ImmediateEffect on a memo / memo chain / diamond (F-C19-9: self-deadlock before 0488c9f)
     for spec in ["x2s", "d2s", "a1s,a1m0", "d2s,x3m0,a1m1", "x0s,a1s,pm0m1", "a0s,d100m0,pm1m0", "a1s,a2s,pm0m1,x3m2"] {
         let k = spec.split(',').count();
@@ -2325,6 +2545,15 @@ fn gen(seed: u64, n: usize, path: &str, tier: &str) -> std::io::Result<()> {
         }
     }
     // random part
+    // bounded real-thread stress ops (testing; the model answers the constant expected outcome)
+    for _ in 0..(if tier == "thorough" { 20 } else { 5 }) {
+        emit(&mut f, "stress", format!("stress subs {}", if tier == "thorough" { 200000 } else { 60000 }))?;
+    }
+    for fam in ["rw", "rwguard", "arcrw", "arcrwguard", "write", "writeguard", "arcwrite", "arcwriteguard"] {
+        for th in [2usize, 3] {
+            emit(&mut f, "stress", format!("stress writes {fam} {th} {}", if tier == "thorough" { 200000 } else { 30000 }))?;
+        }
+    }
     let stress = if tier == "thorough" { 40 } else { 4 };
     for i in 0..stress {
         emit(&mut f, "stress", format!("stress effect {} {} {}", r.next() % 100000, 1 + i % 3, if tier == "thorough" { 20000 } else { 2000 }))?;
